@@ -35,6 +35,7 @@ type trackedSlice struct {
 	name    string
 	backing []byte
 	before  []byte
+	lentLen int // > 0: the window itself (lentLen bytes) is lent to the callee, which may overwrite it; only the memory around it is guarded
 }
 type trackedBig struct {
 	name   string
@@ -68,6 +69,17 @@ func (c *memCtx) bytes(name string, data []byte) []byte {
 	t := &trackedSlice{name: name, backing: backing, before: append([]byte{}, backing...)}
 	c.slices = append(c.slices, t)
 	return backing[canaryPrefix : canaryPrefix+len(data) : canaryPrefix+len(data)+c.spare]
+}
+
+// lent: like bytes, but the window is handed over to an object that is entitled to wipe it later (NewExtendedKey keeps the
+// slices it is given, Zero clears them): the bytes before the window and the spare capacity behind it stay the caller's.
+func (c *memCtx) lent(name string, data []byte) []byte {
+	w := c.bytes(name, data)
+	c.slices[len(c.slices)-1].lentLen = len(data)
+	if len(data) == 0 {
+		c.slices[len(c.slices)-1].lentLen = -1
+	}
+	return w
 }
 func (c *memCtx) big(name string, v *big.Int) *big.Int {
 	x := new(big.Int).Set(v)
@@ -198,6 +210,13 @@ func canon(vs []interface{}) string {
 
 func (c *memCtx) verify(when string) {
 	for _, t := range c.slices {
+		if t.lentLen != 0 { // the window may have been overwritten by its new owner: not the memory around it
+			n := t.lentLen
+			if n < 0 {
+				n = 0
+			}
+			copy(t.before[canaryPrefix:canaryPrefix+n], t.backing[canaryPrefix:canaryPrefix+n])
+		}
 		if !bytes.Equal(t.backing, t.before) {
 			pos := 0
 			for pos < len(t.backing) && t.backing[pos] == t.before[pos] {
@@ -569,6 +588,15 @@ func init() {
 		c.xkey(c3)
 		c.xkey(c1b)
 		c.call(true, func() []interface{} { c1.Zero(); again, _ := par.Child(1); return []interface{}{c1.String(), again} })
+	})
+	add("bip32.ExtendedKey.Zero", func(c *memCtx) { // a key made from the caller's own slices: Zero may wipe what it was lent, nothing around it
+		v, k, cc, fp := c.lent("version", []byte{4, 0x88, 0xad, 0xe4}), c.lent("key", c.r.bytes(32)), c.lent("chainCode", c.r.bytes(32)), c.lent("parentFP", c.r.bytes(4))
+		priv := c.r.coin(1, 2)
+		if !priv {
+			k = c.lent("pubkey", pubOf(somePoint(c.r).x, somePoint(c.r).y).SerialiseCompressed())
+		}
+		x := bip32.NewExtendedKey(v, k, cc, fp, 1, 2, priv)
+		c.call(true, func() []interface{} { x.Zero(); return []interface{}{x.String()} })
 	})
 	add("bip32.NewMaster", func(c *memCtx) {
 		seed := c.bytes("seed", c.r.bytes(16+c.r.intn(49)))
